@@ -283,9 +283,10 @@ class Point(object):
 
         """
 
-        # If the attribute value is not None, then simply return it.
-        # Otherwise, compute it and return it.
-        if self._value is None:
+        # The value of a leaf is filled by the PEP after solving the problem: if not None, simply return it.
+        # The value of a linear combination is computed anew from the current values of the leaves,
+        # so that it always reflects the latest solve.
+        if self._value is None or not self._is_leaf:
             # If leaf, the PEP would have filled the attribute after solving the problem.
             if self._is_leaf:
                 raise ValueError("The PEP must be solved to evaluate Points!")
